@@ -1,5 +1,6 @@
 import Driver.Util
 import SaModel.Build.Builder
+import SaModel.Codec.SchemaJson
 /-
 suite `overflow` (thorough): n unit elements in one List<Null> row, n at / beyond i32::MAX.
 The model's answer is `incrementLast` at the boundary (theorems C05.offset_overflow_exact / _is_error):
@@ -25,8 +26,28 @@ def handleViewBytes (j : Json) : Except String Verdict := do
            sig := if ok then "" else if cls == "panic" then "C16/panic/bytes-view-offset-assert/view_bytes" else s!"overflow/view-bytes/first-err={got}/expected={expected}",
            why := s!"n = {n}: first refused push {got}, expected {expected} ({cls})" }
 
+/-- `deep_term`: the `data_type` text `A(A(…I8…))`, `n` levels, in a one-field schema value.  Up to 64 levels the model
+(`SchemaJson.parseSchema`) is evaluated; beyond, its answer is the theorem `C16.deepTerm_refused` (an error for every
+`n > MAX_TERM_DEPTH`, whatever the size of the text) — evaluating the parser model on a megabyte of text would only
+exercise the driver's own stack. -/
+def handleDeepTerm (j : Json) : Except String Verdict := do
+  let n ← getNat j "n"
+  let impl ← getObj j "impl"
+  let cls := implCls impl
+  let text : String := String.join (List.replicate n "A(") ++ "I8" ++ String.join (List.replicate n ")")
+  let expected : String :=
+    if n ≤ 64 then
+      (SaModel.SchemaJson.parseSchema (.arr (.cons (.obj (.cons "name" (.str "a") (.cons "data_type" (.str text) .nil))) .nil))).cls
+    else "err"
+  let c16 := if cls == "panic" || cls == "hang" then "fail" else "pass"
+  return { agree := expected == cls, spec := [("C05", "na"), ("C16", c16)],
+           tags := [s!"deep-term:n{if n > SaModel.Dsl.MAX_TERM_DEPTH then ">" else "≤"}{SaModel.Dsl.MAX_TERM_DEPTH}", s!"impl:{cls}"],
+           sig := if expected == cls then "" else s!"overflow/deep-term/model={expected}/impl={cls}",
+           why := s!"data_type nested {n} levels: model {expected}, implementation {cls}" }
+
 def handle (j : Json) : Except String Verdict := do
   if (getStr j "kind").toOption == some "view_bytes" then return ← handleViewBytes j
+  if (getStr j "kind").toOption == some "deep_term" then return ← handleDeepTerm j
   let n ← getNat j "n"
   let impl ← getObj j "impl"
   let cls := implCls impl
